@@ -1,0 +1,95 @@
+//! Probes around crate-private components of the I/O loop (only with
+//! `--cfg amiquip_verif`).
+use super::channel_slots::ChannelSlots;
+use super::content_collector::{CollectorResult, ContentCollector};
+use crate::{AmqpProperties, Delivery, Get, Result, Return};
+use amq_protocol::frame::AMQPContentHeader;
+use amq_protocol::protocol::basic::{Deliver, GetOk, Return as AmqpReturn};
+
+/// Wraps `ChannelSlots<()>`.
+pub struct SlotsProbe(ChannelSlots<()>);
+
+impl SlotsProbe {
+    pub fn new(channel_max: u16) -> SlotsProbe {
+        let mut slots = ChannelSlots::new();
+        slots.set_channel_max(channel_max);
+        SlotsProbe(slots)
+    }
+
+    /// Returns the id that was inserted.
+    pub fn insert(&mut self, channel_id: Option<u16>) -> Result<u16> {
+        self.0.insert(channel_id, |id| Ok(((), id)))
+    }
+
+    pub fn remove(&mut self, channel_id: u16) -> bool {
+        self.0.remove(channel_id).is_some()
+    }
+
+    pub fn drain(&mut self) -> Vec<u16> {
+        self.0.drain().map(|(id, ())| id).collect()
+    }
+
+    pub fn contains(&self, channel_id: u16) -> bool {
+        self.0.get(channel_id).is_some()
+    }
+
+    pub fn open_ids(&self) -> Vec<u16> {
+        self.0.iter().map(|(id, ())| *id).collect()
+    }
+}
+
+/// A completed message as produced by the collector.
+#[derive(Debug)]
+pub enum Collected {
+    Delivery(String, Delivery),
+    Return(Return),
+    Get(Get),
+}
+
+/// Wraps `ContentCollector`.
+pub struct CollectorProbe(ContentCollector);
+
+impl CollectorProbe {
+    pub fn new(channel_id: u16) -> CollectorProbe {
+        CollectorProbe(ContentCollector::new(channel_id))
+    }
+
+    pub fn collect_deliver(&mut self, deliver: Deliver) -> Result<()> {
+        self.0.collect_deliver(deliver)
+    }
+
+    pub fn collect_return(&mut self, return_: AmqpReturn) -> Result<()> {
+        self.0.collect_return(return_)
+    }
+
+    pub fn collect_get(&mut self, get_ok: GetOk) -> Result<()> {
+        self.0.collect_get(get_ok)
+    }
+
+    pub fn collect_header(
+        &mut self,
+        class_id: u16,
+        body_size: u64,
+        properties: AmqpProperties,
+    ) -> Result<Option<Collected>> {
+        let header = AMQPContentHeader {
+            class_id,
+            weight: 0,
+            body_size,
+            properties,
+        };
+        Ok(self.0.collect_header(header)?.map(convert))
+    }
+
+    pub fn collect_body(&mut self, body: Vec<u8>) -> Result<Option<Collected>> {
+        Ok(self.0.collect_body(body)?.map(convert))
+    }
+}
+
+fn convert(result: CollectorResult) -> Collected {
+    match result {
+        CollectorResult::Delivery((tag, delivery)) => Collected::Delivery(tag, delivery),
+        CollectorResult::Return(return_) => Collected::Return(return_),
+        CollectorResult::Get(get) => Collected::Get(get),
+    }
+}
